@@ -39,7 +39,7 @@ MANIFEST = {
             "WontImplement refusals are checked per path. Right level: an off-by-one in a guard changes no test but is visible in the guard itself.",
     "note": "Does not decide the numeric allocation bound (serde's cautious cap times the withheld hint), maps (their hint is unconditional, outside the "
             "statement), visitors, recursion depth. Trusted: cobs report contract, Flavor::try_take_n returns exactly n bytes for user flavors.",
-    "technique": "static analysis: panic-site discharge (LIN/BIT/contracts) + linear guard exactness on raw pointers + compile_fail lifetime witnesses + path rules",
+    "technique": "static analysis: panic-site enumeration with linear-arithmetic / bit-affine / contract discharge + hand-written cursor specifications compared with semantic MIR summaries + compile_fail lifetime witnesses + path rules",
 }
 
 TAKE_CONTRACT = "trait contract: Flavor::try_take_n(n) returns exactly n bytes (verified for in-crate flavors by their summaries)"
